@@ -10,6 +10,7 @@ import z3
 from .core import cur, OutOfSubset, forall_range, _z
 
 IntS, RealS, BoolS = z3.IntSort(), z3.RealSort(), z3.BoolSort()
+_POW = z3.Function('pow', RealS, RealS, RealS)      # uninterpreted x ** y for real exponents (see SNum.__pow__)
 
 
 def is_sym(x):
@@ -243,6 +244,12 @@ class SNum(Sym):
         if isinstance(o, float) and o == 0.5:
             from . import npspec
             return npspec.sqrt(self)
+        if isinstance(o, float) and o == o and abs(o) != float('inf'):
+            # x ** (concrete non-integer or negative float): uninterpreted real power of a POSITIVE base (python raises /
+            # goes complex for other bases: that is a call-pre obligation); nothing is assumed about the value
+            t = z3.ToReal(self.t) if isinstance(self, SInt) else self.t
+            cur().oblige('call-pre[power with a real exponent: positive base]', t > 0)
+            return SReal(_POW(t, z3.RealVal(repr(o))))
         raise OutOfSubset('power with exponent %r' % (o,))
 
     def __lt__(self, o): return self._cmp(o, lambda a, b: a < b)
